@@ -328,7 +328,7 @@ static std::vector<std::array<uint8_t, 4>> alphabet() {
   op(H_SET, 0, 1, 0); op(H_REPLACE, 0, 1, 0); op(H_REPLACE, 0, 2, 0); op(H_GET, 0, 0, 0); op(H_GET, 0, 0, 1);
   op(H_MAP_ADD, 0, 1, 2); op(H_MAP_ADD, 0, 1, 1); op(H_ADD_CHUNK, 0, 0, 0);
   op(H_TAG_SET, 0, 1, 0); op(H_TAG_SET, 0, 2, 0); op(H_TAG_GET, 0, 0, 0); op(H_TAG_BUILD, 0, 0, 0);
-  op(H_COPY, 0, 0, 0); op(H_COPY, 1, 0, 0); op(H_LOAD, 0x53, 0x01, 0x10); op(H_SERIALIZE, 0, 0, 0); op(H_RESET_HANDLE, 0, 1, 0); op(H_MAP_ADD_MOVE, 0, 1, 2); op(H_CHUNK_MOVE, 0, 0, 0); op(H_TAG_SET_MOVE, 0, 1, 0);
+  op(H_COPY, 0, 0, 0); op(H_COPY, 1, 0, 0); op(H_LOAD, 0x53, 0x01, 0x10); op(H_SERIALIZE, 0, 0, 0); op(H_RESET_HANDLE, 0, 1, 0); op(H_MAP_ADD_MOVE, 0, 1, 2); op(H_CHUNK_MOVE, 0, 0, 0); op(H_TAG_SET_MOVE, 0, 1, 0); op(H_FAULT_NEXT, 0, 0, 0); op(H_FAULT_NEXT, 1, 0, 0);
   return A;
 }
 
@@ -352,7 +352,7 @@ static void camp_HISTX(Ctx& ctx, int maxlen) {
 static void camp_HISTR(Ctx& ctx, uint64_t count, uint64_t variant) {
   Case c; c.campaign = "HISTR";
   // opcode weights: creation and structure ops more frequent than reads
-  static const int weights[hist::H_COUNT] = {10, 3, 2, 3, 5, 8, 3, 8, 4, 5, 5, 5, 6, 4, 5, 3, 3, 3, 1, 1, 2, 2, 3, 2, 2};
+  static const int weights[hist::H_COUNT] = {10, 3, 2, 3, 5, 8, 3, 8, 4, 5, 5, 5, 6, 4, 5, 3, 3, 3, 1, 1, 2, 2, 3, 2, 2, 4};
   std::vector<uint8_t> wheel; for (int o = 0; o < hist::H_COUNT; o++) for (int k = 0; k < weights[o]; k++) wheel.push_back((uint8_t)o);
   for (uint64_t i = 0; i < count && !ctx.stop(); i++) {
     if (!ctx.mine(i)) continue;
